@@ -507,6 +507,29 @@ package keeper
 //@ ensures [frame] S == old(S) && E == old(E) && X == old(X)
 
 //@ func DiffValidators pure
+//@ requires [W-keys-present] (forall j int :: 0 <= j && j < len(currentValidators) ==> currentValidators[j].PublicKey != nil) && (forall j int :: 0 <= j && j < len(nextValidators) ==> nextValidators[j].PublicKey != nil)
+//@ requires [W-next-keys-distinct] forall a int, b int :: 0 <= a && a < b && b < len(nextValidators) ==> nextValidators[a].PublicKey.String() != nextValidators[b].PublicKey.String()
+//@ loop 1 invariant [idx] 0 <= _i && _i <= len(currentValidators)
+//@ loop 1 invariant [all-in] forall j int :: 0 <= j && j < _i ==> has(isCurrentValidator, currentValidators[j].PublicKey.String())
+//@ loop 2 invariant [idx] 0 <= _i && _i <= len(nextValidators)
+//@ loop 2 invariant [cur-all-in] forall j int :: 0 <= j && j < len(currentValidators) ==> has(isCurrentValidator, currentValidators[j].PublicKey.String())
+//@ loop 2 invariant [all-in] forall j int :: 0 <= j && j < _i ==> has(isNextValidator, nextValidators[j].PublicKey.String())
+//@ loop 2 invariant [map-is-next] forall j int :: 0 <= j && j < _i ==> isNextValidator[nextValidators[j].PublicKey.String()] == nextValidators[j]
+//@ loop 2 invariant [keyed] forall k string :: has(isNextValidator, k) ==> isNextValidator[k].PublicKey != nil && isNextValidator[k].PublicKey.String() == k
+//@ loop 3 invariant [idx] 0 <= _i && _i <= len(currentValidators)
+//@ loop 3 invariant [map-is-next] forall j int :: 0 <= j && j < len(nextValidators) ==> isNextValidator[nextValidators[j].PublicKey.String()] == nextValidators[j]
+//@ loop 3 invariant [maps-kept] (forall j int :: 0 <= j && j < len(currentValidators) ==> has(isCurrentValidator, currentValidators[j].PublicKey.String())) && (forall j int :: 0 <= j && j < len(nextValidators) ==> has(isNextValidator, nextValidators[j].PublicKey.String())) && (forall k string :: has(isNextValidator, k) ==> isNextValidator[k].PublicKey != nil && isNextValidator[k].PublicKey.String() == k)
+//@ loop 3 invariant [sound] forall u int :: 0 <= u && u < len(updates) ==> (updates[u].Power == 0 && !has(isNextValidator, updates[u].PubKey.String())) || (has(isNextValidator, updates[u].PubKey.String()) && updates[u].Power == isNextValidator[updates[u].PubKey.String()].Power)
+//@ loop 3 step [removal] !has(isNextValidator, currentVal.PublicKey.String()) ==> len(updates) == prev(len(updates)) + 1 && updates[len(updates) - 1].Power == 0 && updates[len(updates) - 1].PubKey.String() == currentVal.PublicKey.String()
+//@ loop 3 step [power-change] has(isNextValidator, currentVal.PublicKey.String()) && isNextValidator[currentVal.PublicKey.String()].Power != currentVal.Power ==> len(updates) == prev(len(updates)) + 1 && updates[len(updates) - 1].Power == isNextValidator[currentVal.PublicKey.String()].Power && updates[len(updates) - 1].PubKey.String() == currentVal.PublicKey.String()
+//@ loop 3 step [unchanged] has(isNextValidator, currentVal.PublicKey.String()) && isNextValidator[currentVal.PublicKey.String()].Power == currentVal.Power ==> len(updates) == prev(len(updates))
+//@ loop 4 invariant [idx] 0 <= _i && _i <= len(nextValidators)
+//@ loop 4 invariant [map-is-next] forall j int :: 0 <= j && j < len(nextValidators) ==> isNextValidator[nextValidators[j].PublicKey.String()] == nextValidators[j]
+//@ loop 4 invariant [maps-kept] (forall j int :: 0 <= j && j < len(currentValidators) ==> has(isCurrentValidator, currentValidators[j].PublicKey.String())) && (forall j int :: 0 <= j && j < len(nextValidators) ==> has(isNextValidator, nextValidators[j].PublicKey.String())) && (forall k string :: has(isNextValidator, k) ==> isNextValidator[k].PublicKey != nil && isNextValidator[k].PublicKey.String() == k)
+//@ loop 4 invariant [sound] forall u int :: 0 <= u && u < len(updates) ==> (updates[u].Power == 0 && !has(isNextValidator, updates[u].PubKey.String())) || (has(isNextValidator, updates[u].PubKey.String()) && updates[u].Power == isNextValidator[updates[u].PubKey.String()].Power)
+//@ loop 4 step [addition] !has(isCurrentValidator, nextVal#2.PublicKey.String()) ==> len(updates) == prev(len(updates)) + 1 && updates[len(updates) - 1].Power == nextVal#2.Power && updates[len(updates) - 1].PubKey.String() == nextVal#2.PublicKey.String()
+//@ loop 4 step [already-there] has(isCurrentValidator, nextVal#2.PublicKey.String()) ==> len(updates) == prev(len(updates))
+//@ ensures [sound] forall u int :: 0 <= u && u < len(result) ==> (result[u].Power == 0 && !has(isNextValidator, result[u].PubKey.String())) || (has(isNextValidator, result[u].PubKey.String()) && result[u].Power == isNextValidator[result[u].PubKey.String()].Power)
 
 //@ func Keeper.FilterValidators pure
 //@ ensures [frame] S == old(S) && E == old(E) && X == old(X)
